@@ -155,17 +155,21 @@ def script_cache_check(filename, cachefname):
     ccode = None
     run_cached = False
     if os.path.isfile(cachefname):
-        if os.stat(cachefname).st_mtime >= os.stat(filename).st_mtime:
-            with open(cachefname, "rb") as cfile:
-                if not _check_cache_versions(cfile):
-                    return False, None
-                try:
-                    ccode = marshal.load(cfile)
-                except Exception:
-                    # Cache file is corrupted (e.g. truncated by a crash).
-                    # Ignore it — the script will be recompiled and cached again.
-                    return False, None
-                run_cached = True
+        try:
+            if os.stat(cachefname).st_mtime >= os.stat(filename).st_mtime:
+                with open(cachefname, "rb") as cfile:
+                    if not _check_cache_versions(cfile):
+                        return False, None
+                    try:
+                        ccode = marshal.load(cfile)
+                    except Exception:
+                        # Cache file is corrupted (e.g. truncated by a crash).
+                        # Ignore it — the script will be recompiled and cached again.
+                        return False, None
+                    run_cached = True
+        except OSError:
+            # Cache file is unreadable (e.g. permissions). Ignore it.
+            return False, None
     return run_cached, ccode
 
 
@@ -210,16 +214,20 @@ def code_cache_check(cachefname):
     ccode = None
     run_cached = False
     if os.path.isfile(cachefname):
-        with open(cachefname, "rb") as cfile:
-            if not _check_cache_versions(cfile):
-                return False, None
-            try:
-                ccode = marshal.load(cfile)
-            except Exception:
-                # Cache file is corrupted (e.g. truncated by a crash).
-                # Ignore it — the code will be recompiled and cached again.
-                return False, None
-            run_cached = True
+        try:
+            with open(cachefname, "rb") as cfile:
+                if not _check_cache_versions(cfile):
+                    return False, None
+                try:
+                    ccode = marshal.load(cfile)
+                except Exception:
+                    # Cache file is corrupted (e.g. truncated by a crash).
+                    # Ignore it — the code will be recompiled and cached again.
+                    return False, None
+                run_cached = True
+        except OSError:
+            # Cache file is unreadable (e.g. permissions). Ignore it.
+            return False, None
     return run_cached, ccode
 
 
